@@ -2157,6 +2157,23 @@ impl Interpreter {
         }
     }
 
+    /// Declare `name` in the current environment without a value: reading or assigning it
+    /// before its `let`/`const` declaration runs is a ReferenceError
+    pub fn env_define_uninitialized(&mut self, name: JsString) {
+        let mut env_ref = self.env.borrow_mut();
+        if let Some(data) = env_ref.as_environment_mut() {
+            data.bindings.insert(
+                VarKey(name),
+                Binding {
+                    value: JsValue::Undefined,
+                    mutable: true,
+                    initialized: false,
+                    import_binding: None,
+                },
+            );
+        }
+    }
+
     /// Define `name` in the current environment as an alias of the property `name` of
     /// `target` (exported members of a namespace live on the namespace object)
     pub fn env_define_alias(&mut self, name: JsString, target: Gc<JsObject>, mutable: bool) {
@@ -2326,6 +2343,12 @@ impl Interpreter {
             let mut env_ref = env.borrow_mut();
             if let Some(data) = env_ref.as_environment_mut() {
                 if let Some(binding) = data.bindings.get_mut(&key) {
+                    if !binding.initialized {
+                        return Err(JsError::reference_error(format!(
+                            "Cannot access '{}' before initialization",
+                            name
+                        )));
+                    }
                     if !binding.mutable {
                         return Err(JsError::type_error(format!(
                             "Assignment to constant variable '{}'",
